@@ -50,6 +50,7 @@ type scenario struct {
 	Internal  int     `json:"internal"` // number of internal sockets (two per host)
 	Remotes   int     `json:"remotes"`  // number of remote sockets (two per host: same IP, other port)
 	Events    []event `json:"events"`
+	RemoteSet int     `json:"remoteSet,omitempty"` // which set of remote host addresses (see remoteSets)
 	Exhaust   bool    `json:"exhaust"` // first create 16385 mappings towards distinct remote ports
 	TwoIPs    bool    `json:"twoIPs"`  // the NAPT router holds two addresses on its parent network
 }
@@ -64,7 +65,8 @@ func gen(r *harn.Rng, tier string) interface{} {
 	if sc.OneToOne == 0 && r.Bool(0.25) {
 		sc.TwoIPs = true
 	}
-	if (tier == "thorough" && r.Bool(0.02)) || r.Bool(0.0015) {
+	sc.RemoteSet = r.Intn(2)
+	if (tier == "thorough" && r.Bool(0.02)) || r.Bool(0.0015) || os.Getenv("VERIF_C02_EXHAUST") != "" {
 		sc.Exhaust = true
 		sc.Mapping = 2
 		sc.OneToOne = 0
@@ -174,7 +176,7 @@ func run(env *simrt.Env, sci interface{}) {
 	sc := sci.(*scenario)
 	c02, c03 := prop == "C02", prop == "C03"
 	L := time.Duration(sc.LifeNs)
-	wan, err := vnet.NewRouter(&vnet.RouterConfig{CIDR: "1.2.3.0/24", LoggerFactory: quietLF()})
+	wan, err := vnet.NewRouter(&vnet.RouterConfig{CIDR: "1.0.0.0/8", LoggerFactory: quietLF()})
 	if err != nil {
 		env.Infra("NewRouter: %v", err)
 		return
@@ -239,7 +241,8 @@ func run(env *simrt.Env, sci interface{}) {
 	}
 	internals = internals[:sc.Internal]
 	// 1.2.3.10 is a textual prefix of 1.2.3.100 and 1.2.3.101: keys built from strings must not confuse them
-	remoteIPs := []string{"1.2.3.100", "1.2.3.10", "1.2.3.101"}
+	// set 1: addresses that agree in their low 16 bits / differ only in one high octet: keys packed into integers must not truncate them
+	remoteIPs := [][]string{{"1.2.3.100", "1.2.3.10", "1.2.3.101"}, {"1.2.3.100", "1.9.3.100", "1.200.3.100"}}[sc.RemoteSet%2]
 	for h := 0; len(remotes) < sc.Remotes; h++ {
 		ss := mkHost(wan, remoteIPs[h%len(remoteIPs)], 7000, 7001)
 		if ss == nil {
@@ -383,6 +386,35 @@ func run(env *simrt.Env, sci interface{}) {
 						return
 					}
 					env.Probe("reused-port-intact")
+					// every port is held by a live mapping: a further flow is refused (or served); twice,
+					// because a refusal must not leave anything behind that the flow's next datagram uses
+					if src != is {
+						for k := 0; k < 2; k++ {
+							plx, tagx := mkPayload()
+							_, _ = src.conn.WriteTo(append([]byte(nil), plx...), rs.addr)
+							settle()
+							whox, srcx, ok := collect(tagx, plx)
+							if !ok {
+								return
+							}
+							if len(whox) > 1 || (len(whox) == 1 && whox[0] != rs) {
+								env.Fail(prop+"/misdelivered", "with every external port in use, datagram #%d of a new flow %s -> %s was received by %d sockets", k+1, src.addr, rs.addr, len(whox))
+								return
+							}
+							if len(whox) == 1 {
+								ua, err := net.ResolveUDPAddr("udp", srcx)
+								if err != nil || !extIPs[ua.IP.String()] || ua.Port < 1 || ua.Port > 65535 {
+									env.Fail(prop+"/invalid-external-address", "with every external port in use, datagram #%d of a new flow %s -> %s reached the receiver with source %q; want an address of the NAT router with a valid port (or no delivery)", k+1, src.addr, rs.addr, srcx)
+									return
+								}
+								if srcx == srcX {
+									env.Fail(prop+"/external-address-shared", "with every external port in use, a new flow of %s was given the external address %s that the live mapping of %s holds", src.addr, srcx, is.addr)
+									return
+								}
+							}
+						}
+						env.Probe("flow-refused-twice")
+					}
 					// every port is held by a live mapping now. At 0.6 L another endpoint needs a
 					// mapping (the search passes over all of them); at 1.2 L without outbound traffic
 					// the mapping of `is` must have ended: its remote is no longer admitted.
